@@ -120,6 +120,7 @@ def is_json_kind(cls):
 
 CLASSES = all_classes()
 BY_NAME = {c.__name__: c for c in CLASSES}
+FAM = {c.__name__: family(c) for c in CLASSES}
 
 # ---------------------------------------------------------------------------
 # canonical values
@@ -186,12 +187,20 @@ def mk_payload(k: str, data):
     return DPTArray(tuple(data))
 
 
-def payload_canon(p) -> str:
+def payload_canon(p, nan32=False) -> str:
+    """nan32: payload of an IEEE binary32 codec - every NaN bit pattern is rendered as the canonical quiet NaN
+    (NaN payload bits are not modelled; their propagation is platform specific)."""
     if isinstance(p, DPTBinary):
-        return f"b{p.value}"
+        return f"b{int(p.value)}"
     if isinstance(p, DPTArray):
-        return "a" + (bytes(p.value).hex() if all(isinstance(x, int) and 0 <= x < 256 for x in p.value) and p.value
-                      else ("-" if not p.value else "!" + ".".join(str(x) for x in p.value)))
+        v = p.value
+        if not v:
+            return "a-"
+        if not all(isinstance(x, int) and 0 <= x < 256 for x in v):
+            return "a!" + ".".join(str(x) for x in v)
+        if nan32 and len(v) == 4 and (v[0] & 0x7F) == 0x7F and (v[1] & 0x80) and (((v[1] & 0x7F) << 16) | (v[2] << 8) | v[3]):
+            return "a7fc00000"
+        return "a" + bytes(v).hex()
     return "?" + type(p).__name__
 
 
